@@ -493,7 +493,7 @@ func (sc *SCtx) elemAddr(v Val, t types.Type, i Term) (Val, types.Type, error) {
 	case *types.Slice:
 		e.declSlice()
 		base := app(SInt, "sl_base", v.T)
-		idx := Add(app(SInt, "sl_off", v.T), i)
+		idx := e.eix(app(SInt, "sl_off", v.T), i)
 		if isStructVal(u.Elem()) {
 			return tv(e.elemRef(base, idx)), u.Elem(), nil
 		}
